@@ -21,6 +21,7 @@ DECIDED = [
     "R-C10-PLUGIN: the testing plugin builds its worker with the literal messages_limit=1 and runs it inside the wrapped enqueue after "
     "the real enqueue",
     "R-C10-GATE (shared counter): the started-executions counter compared with max_tasks is state of the runner, not a local of one queue's loop; R-C10-STOP (order): finish_gracefully precedes the consumers' finish() (C03's shutdown rules reused)",
+    "R-C10-STOP (all paths): the done-callback counts the task and evaluates the limit on every path, however the task ended",
 ]
 NOT_DECIDED = ["that run() returns promptly once M executions have finished (timing)"]
 ASSUMPTIONS = ["C09 (ownership): tasks are spawned only by the consume loop"]
